@@ -351,11 +351,12 @@ def gen_streams(tier):
     n = {'quick': 48000, 'extended': 300000, 'thorough': 2000000}[tier]
     m = {'quick': 320, 'extended': 3200, 'thorough': 9600}[tier]
     return [dict(name='generate-parse-validate', harness=['gen', str(n), '{seed}', '{shard}', '{nshards}'], driver='gen'),
-            dict(name='cli-create-then-test', harness=['createcli', str(m), '{seed}', '{shard}', '{nshards}'], driver='gen', timeout=3000)]
+            dict(name='cli-create-then-test', harness=['createcli', str(m), '{seed}', '{shard}', '{nshards}'], driver='gen', timeout=3000),
+            dict(name='cli-convert-then-test', harness=['convcli', str(m), '{seed}', '{shard}', '{nshards}'], driver='gen', timeout=3000)]
 
 
 PROPS['C09'] = dict(
-    family='line', tags={'G': 'gen', 'J': 'gen'}, needs_scrut_bin=True,
+    family='line', tags={'G': 'gen', 'J': 'gen', 'V': 'gen'}, needs_scrut_bin=True,
     theorems=['C09_line_round_trip', 'C09_line_not_exit_code', 'C09_generated_expectations_pass', 'C09_cram_test_reads_back', 'C09_markdown_test_reads_back', 'C09_regen_described', 'C09_regen_accepts_when_deterministic'],
     streams=gen_streams,
     spec_kinds=['SPEC:C09', 'SPEC:C18'], corr_kinds=['DIFF:generated-lines', 'DIFF:generated-document'],
